@@ -103,8 +103,26 @@ def order_sensitive(rng, counter, blocker_kind=None, mover_kind=None, between=No
     return p, cur, src, rng.choice(movers)
 
 
+def passable(rng, counter):
+    """Only operations every mover commutes with (calculations, projections) between the root and the transfer, iteration
+    engines only: backtracking reaches the transfer and inserts the operation in the source engine."""
+    src, mid = rng.sample([("it", 0), ("it", 1)], 2)
+    cols = gen.gen_schema(rng, maxk=2, maxn=1, allow_empty=False)
+    counter[0] += 1
+    leaf = mp.gen_leaf(rng, counter[0], cols, src, special=0, loose=0)
+    p, cur = ("xfer", mid, leaf), set(cols)
+    for _ in range(rng.choice([0, 1, 2])):
+        o, cur = gen.gen_op(rng, cur, weights=[2, 0, 2, 0, 0, 0])
+        p = ("un", o, mp.DEFAULT, p)
+    o, _c = gen.gen_op(rng, cur, weights=[1, 1, 2, 3, 3, 2])
+    return p, cur, src, o
+
+
 def make_programs(rng, n):
     out = [f2_program(), f14_program()]
+    for i in range(n // 5):
+        base, cur, src, o = passable(rng, [0])
+        out.append((base, ("un", o, (src, True, rng.random() < 0.3, False), base), ("un", o, mp.DEFAULT, base), i % 3 != 0))
     combos = [(b, m, k) for b in ("sort", "slice", "sel", "dedup") for m in ("slice", "dedup", "sort", "sel") for k in (0, 1)]
     for i in range(max(n // 4, len(combos))):
         counter = [0]
